@@ -42,6 +42,10 @@ STATE_ON_RHS = "C03-state-on-rhs-of-own-ode"
 UPPERCASE = "C03-uppercase-exponent"
 LHS_UNSCALED = "C03-known-variable-on-lhs-not-scaled"
 BARE_RATE = "C03-bare-rate-on-rhs-voi-scaling"
+INIT_ORDER = "C03-initial-value-reference-order"
+INIT_SCALED = "C03-initial-value-reference-not-scaled"
+RATE_ORDER = "C03-rate-used-before-computed"
+PREFIX_EXP = "C03-prefix-with-exponent-scaling"
 
 _HDR = ('<?xml version="1.0" encoding="UTF-8"?>\n<model xmlns="http://www.cellml.org/cellml/2.0#" '
         'xmlns:cellml="http://www.cellml.org/cellml/2.0#" name="%s">\n')
@@ -119,6 +123,46 @@ CORPUS = [
      '  </component>\n'
      '  <connection component_1="A" component_2="B">\n    <map_variables variable_1="t" variable_2="tb"/>\n'
      '    <map_variables variable_1="x" variable_2="xb"/>\n  </connection>\n</model>\n', BARE_RATE),
+    ("init_reference_order", _one_component("init_reference_order", [("a", "b"), ("b", "2"), ("y", None)],
+                                            [(_ci("y"), _ap("plus", _ci("a"), _ci("b")))]), INIT_ORDER),
+    ("init_reference_scaled", _HDR % "init_reference_scaled" +
+     '  <units name="mV"><unit prefix="milli" units="volt"/></units>\n'
+     '  <component name="A">\n    <variable name="k" units="volt" initial_value="3" interface="public"/>\n  </component>\n'
+     '  <component name="B">\n    <variable name="kb" units="mV" interface="public"/>\n    <variable name="x" units="mV" initial_value="kb"/>\n'
+     '    <variable name="y" units="mV"/>\n'
+     '    <math xmlns="http://www.w3.org/1998/Math/MathML"><apply><eq/><ci>y</ci><apply><times/><cn cellml:units="dimensionless">2</cn><ci>x</ci></apply></apply></math>\n'
+     '  </component>\n'
+     '  <connection component_1="A" component_2="B">\n    <map_variables variable_1="k" variable_2="kb"/>\n  </connection>\n</model>\n', INIT_SCALED),
+    ("rate_before_computed", _one_component("rate_before_computed", [("t", None), ("y", "2"), ("x", "1")],
+                                            [(_ap("diff", "<bvar>%s</bvar>" % _ci("t"), _ci("y")),
+                                              _ap("times", _cn(2), _ap("diff", "<bvar>%s</bvar>" % _ci("t"), _ci("x")))),
+                                             (_ap("diff", "<bvar>%s</bvar>" % _ci("t"), _ci("x")), _cn(3))]), RATE_ORDER),
+    ("prefix_with_exponent", _HDR % "prefix_with_exponent" +
+     '  <units name="m3"><unit units="metre" exponent="3"/></units>\n  <units name="mm3"><unit prefix="milli" units="metre" exponent="3"/></units>\n'
+     '  <component name="A">\n    <variable name="v" units="m3" initial_value="2" interface="public"/>\n  </component>\n'
+     '  <component name="B">\n    <variable name="vb" units="mm3" interface="public"/>\n    <variable name="y" units="mm3"/>\n'
+     '    <math xmlns="http://www.w3.org/1998/Math/MathML"><apply><eq/><ci>y</ci><apply><times/><cn cellml:units="dimensionless">1</cn><ci>vb</ci></apply></apply></math>\n'
+     '  </component>\n'
+     '  <connection component_1="A" component_2="B">\n    <map_variables variable_1="v" variable_2="vb"/>\n  </connection>\n</model>\n', PREFIX_EXP),
+    # scaled references (percent against dimensionless) inside both qualifier kinds, a power exponent, under unary
+    # minus and in an initial value given by reference: all must be scaled by the analyser / generator
+    ("control_scaled_qualifiers", _HDR % "control_scaled_qualifiers" +
+     '  <units name="percent"><unit multiplier="0.01" units="dimensionless"/></units>\n'
+     '  <units name="mV"><unit prefix="milli" units="volt"/></units>\n'
+     '  <component name="A">\n    <variable name="d" units="dimensionless" initial_value="2" interface="public"/>\n'
+     '    <variable name="x0" units="volt" interface="public"/>\n  </component>\n'
+     '  <component name="B">\n    <variable name="dp" units="percent" interface="public"/>\n'
+     '    <variable name="c0" units="mV" initial_value="1500"/>\n    <variable name="xi" units="mV" initial_value="c0" interface="public"/>\n'
+     + "".join('    <variable name="r%d" units="dimensionless"/>\n' % i for i in range(1, 6)) +
+     '    <math xmlns="http://www.w3.org/1998/Math/MathML">\n'
+     '      <apply><eq/><ci>r1</ci><apply><root/><degree><ci>dp</ci></degree><cn cellml:units="dimensionless">9</cn></apply></apply>\n'
+     '      <apply><eq/><ci>r2</ci><apply><log/><logbase><ci>dp</ci></logbase><cn cellml:units="dimensionless">8</cn></apply></apply>\n'
+     '      <apply><eq/><ci>r3</ci><apply><power/><cn cellml:units="dimensionless">3</cn><ci>dp</ci></apply></apply>\n'
+     '      <apply><eq/><ci>r4</ci><apply><sin/><apply><minus/><ci>dp</ci></apply></apply></apply>\n'
+     '      <apply><eq/><ci>r5</ci><apply><root/><degree><apply><plus/><ci>dp</ci><cn cellml:units="dimensionless">1</cn></apply></degree><cn cellml:units="dimensionless">27</cn></apply></apply>\n'
+     '    </math>\n  </component>\n'
+     '  <connection component_1="A" component_2="B">\n    <map_variables variable_1="d" variable_2="dp"/>\n'
+     '    <map_variables variable_1="x0" variable_2="xi"/>\n  </connection>\n</model>\n', None),
     # the same shapes written so that the generator prints them correctly: must all pass
     ("control_safe", _one_component("control_safe", _ABD + [("z", None), ("w", None), ("t", None), ("x", "3")],
                                     [(_ci("y"), _ap("minus", _ci("a"), _ap("plus", _ci("b"), _ci("d")))),
@@ -166,9 +210,9 @@ def close(a, b, rel=REL, abs_=ABS):
 
 
 def _gen_worker(job):
-    seed, mdl, workdir, allowed = job
+    seed, mdl, workdir, allowed, positions, nla_prob = job
     try:
-        m = G.generate(seed, mdl, workdir, allowed_plants=allowed)
+        m = G.generate(seed, mdl, workdir, allowed_plants=allowed, positions=positions, nla_prob=nla_prob)
         return {"seed": seed, "xml": m["xml"], "meta": m["meta"]}
     except Exception as ex:            # a generator failure must not kill the run
         return {"seed": seed, "error": repr(ex)}
@@ -178,7 +222,11 @@ def generate_models(seeds, mdl, workdir, allowed_plants=None):
     """models for the seeds, in parallel.  allowed_plants: finding ids the generator may plant in its unsafe models
     (the check passes the ids that are listed as known, so that an unlisted defect is only shown by its minimal
     hand-written model and not by a hundred random ones)"""
-    jobs = [(s, mdl, workdir, allowed_plants) for s in seeds]
+    # every model gets three of the position kinds at which a reference to a SCALED variable must occur, in turn, so
+    # that each kind is requested n*3/len(BOOST_KINDS) times; the first two models carry an NLA system for sure
+    K = G.BOOST_KINDS
+    jobs = [(s, mdl, workdir, allowed_plants, [K[(3 * i + j) % len(K)] for j in range(3)], 1.0 if i < 2 else 0.08)
+            for i, s in enumerate(seeds)]
     if len(jobs) <= 2:
         return [_gen_worker(j) for j in jobs]
     with multiprocessing.get_context("fork").Pool(min(vf.NCPU, len(jobs))) as pool:
@@ -231,10 +279,11 @@ class Judged:
         self.late = set()                        # computed constants not yet right after computeComputedConstants
 
 
-def _deps_closure(res, recs, start_classes):
-    """equation records in the dependency closure of the given classes (None = all equations)"""
+def _deps_closure(res, recs, start_classes, init_refs=None, with_classes=False):
+    """equation records in the dependency closure of the given classes (None = all equations); with_classes: also the
+    set of classes of the closure (initial values given by reference are followed through init_refs)"""
     if start_classes is None:
-        return list(recs)
+        return (list(recs), set(range(len(res.classes)))) if with_classes else list(recs)
     by_class = {}
     nla_recs = [r for r in recs if r["kind"] == "nla"]
     for r in recs:
@@ -247,6 +296,8 @@ def _deps_closure(res, recs, start_classes):
         if k in seen_c:
             continue
         seen_c.add(k)
+        if init_refs and k in init_refs:
+            todo.append(init_refs[k])
         rs = list(by_class.get(k, []))
         if res.kind.get(k) == "nla":
             for s in res.nla_systems:
@@ -263,10 +314,76 @@ def _deps_closure(res, recs, start_classes):
                     todo.append(res.class_of[(r["comp"], n)])
                 for x, t in diffs:
                     todo.append(res.class_of[(r["comp"], x)])
-    return out
+    return (out, seen_c) if with_classes else out
 
 
-def analyse_shapes(desc, res, drv_info, mdl, workdir, tag):
+def rates_read_early(c_text):
+    """indices i such that computeRates of the generated C text reads rates[i] on a line before the one assigning it"""
+    m = re.search(r"void computeRates\([^)]*\)\s*\{(.*?)\n\}", c_text, flags=re.S)
+    early, assigned = set(), set()
+    if not m:
+        return early
+    for line in m.group(1).split("\n"):
+        am = re.match(r"\s*rates\[(\d+)\] = (.*)$", line)
+        rhs = am.group(2) if am else line
+        for k in re.findall(r"rates\[(\d+)\]", rhs):
+            if int(k) not in assigned:
+                early.add(int(k))
+        if am:
+            assigned.add(int(am.group(1)))
+    return early
+
+
+def class_level_shapes(desc, res, drv_info, prim):
+    """({class index: set of finding ids}, {class: class its initial value names}) for the shapes that concern a
+    variable rather than an equation"""
+    ids, init_refs = {}, {}
+    idx = {}
+    for arr in ("variables", "states"):
+        for rec in drv_info[arr]:
+            if rec["var"] in res.class_of:
+                idx[res.class_of[rec["var"]]] = (arr, rec["index"])
+    defs = {u["name"]: u for u in desc.get("units", [])}
+    bad = set()
+
+    def is_bad(name, stack=()):
+        if name in bad:
+            return True
+        if name not in defs or name in stack:
+            return False
+        for ch in defs[name]["unit"]:
+            pre, ex = ch.get("prefix"), ch.get("exponent")
+            has_pre = pre not in (None, "", "0", 0)
+            has_ex = ex not in (None, "") and float(ex) != 1.0
+            if (has_pre and has_ex) or is_bad(ch["units"], stack + (name,)):
+                bad.add(name)
+                return True
+        return False
+    for c in desc["components"]:
+        for v in c["variables"]:
+            key = (c["name"], v["name"])
+            if key not in res.class_of:
+                continue
+            k = res.class_of[key]
+            if is_bad(v["units"]):
+                # a unit child with both a prefix and an exponent other than 1: the prefix is applied without the exponent
+                ids.setdefault(k, set()).add(PREFIX_EXP)
+            iv = (v.get("initial_value") or "").strip()
+            ref = (c["name"], iv)
+            if iv and ref in res.class_of:
+                kr = res.class_of[ref]
+                init_refs[k] = kr
+                a, b = idx.get(k), idx.get(kr)
+                # initialiseVariables assigns in index order: the named variable is assigned on a later line
+                if a and b and a[0] == "variables" and b[0] == "variables" and b[1] > a[1]:
+                    ids.setdefault(k, set()).add(INIT_ORDER)
+                # the named variable is itself a scaled view of its class: its own factor is not applied
+                if abs(res.m(tuple(prim[kr])) / res.m(ref) - 1.0) > 1e-12:
+                    ids.setdefault(k, set()).add(INIT_SCALED)
+    return ids, init_refs
+
+
+def analyse_shapes(desc, res, drv_info, mdl, workdir, tag, c_text=""):
     """per equation: safety in both profiles and the known-finding ids of its minimal unsafe sites, computed from the
     primaries the analyser REALLY chose (driver output).  Returns (recs, model-level ids from initial values)."""
     import c03
@@ -278,7 +395,15 @@ def analyse_shapes(desc, res, drv_info, mdl, workdir, tag):
         prim[res.class_of[drv_info["voi"]]] = drv_info["voi"]
     recs = G.model_equation_asts(desc, res, prim)
     ans = G.safety_query(mdl, [r["ast"] for r in recs], workdir, tag)
+    early = rates_read_early(c_text)
+    state_index = {res.class_of[rec["var"]]: rec["index"] for rec in drv_info["states"] if rec["var"] in res.class_of}
     for r, a in zip(recs, ans):
+        # the rate of a state read by an equation of computeRates before the line that assigns it
+        used = []
+        for side in (r["lhs"], r["rhs"]):
+            if not (r["kind"] == "ode" and side[0] == "diff" and side is not r.get("body")):
+                used += [x for x, _t in matheval.variables_in(side)[1]]
+        r["rate_order"] = any(state_index.get(res.class_of.get((r["comp"], x))) in early for x in used)
         r["safe"] = {"C": a["safeC"], "Py": a["safePy"]}
         r["ids"] = {"C": [c03.classify_site("C", s) for s in a["sitesC"]], "Py": [c03.classify_site("Py", s) for s in a["sitesPy"]]}
         r["sites"] = {"C": [astgen.line(s) for s in a["sitesC"]], "Py": [astgen.line(s) for s in a["sitesPy"]]}
@@ -305,9 +430,12 @@ def analyse_shapes(desc, res, drv_info, mdl, workdir, tag):
     return recs, upper, prim
 
 
-def explain(lang, recs, upper, whole_model):
-    """(known ids explaining a failure, unexplained reasons).  recs = equations that may have caused it."""
+def explain(lang, recs, upper, whole_model, class_ids=None, classes=()):
+    """(known ids explaining a failure, unexplained reasons).  recs = equations that may have caused it,
+    classes = the variables (equivalence classes) it depends on, class_ids = class_level_shapes(...)[0]."""
     ids, unknown = set(), []
+    for k in classes:
+        ids |= (class_ids or {}).get(k, set())
     for r in recs:
         if r["state_on_rhs"]:
             ids.add(STATE_ON_RHS)
@@ -315,6 +443,8 @@ def explain(lang, recs, upper, whole_model):
             ids.add(LHS_UNSCALED)
         if r["bare_rate"]:
             ids.add(BARE_RATE)
+        if r.get("rate_order"):
+            ids.add(RATE_ORDER)
         if not r["safe"][lang]:
             for i, s in zip(r["ids"][lang], r["sites"][lang]):
                 if i is None:
@@ -516,7 +646,8 @@ def process(ctx, build, drv, mdl, models, workdir, tag):
     for r in prepared:
         if r["status"] != "ok":
             continue
-        r["recs"], r["upper"], r["prim"] = analyse_shapes(r["desc"], r["res"], r["info"], mdl, workdir, tag + "_" + r["model"]["name"])
+        r["recs"], r["upper"], r["prim"] = analyse_shapes(r["desc"], r["res"], r["info"], mdl, workdir, tag + "_" + r["model"]["name"], r["c"])
+        r["class_ids"], r["init_refs"] = class_level_shapes(r["desc"], r["res"], r["info"], r["prim"])
     return prepared
 
 
@@ -531,8 +662,8 @@ def report(ctx, r, counters, max_violations=5):
             continue
         first_by_cause = {}
         for what, classes, detail in fails:
-            closure = _deps_closure(res, r["recs"], classes)
-            ids, unknown = explain(lang, closure, r["upper"], classes is None)
+            closure, cl_classes = _deps_closure(res, r["recs"], classes, r["init_refs"], True)
+            ids, unknown = explain(lang, closure, r["upper"], classes is None, r["class_ids"], cl_classes)
             if ids and not unknown:
                 ok = True
                 for fid in sorted(ids):
@@ -619,6 +750,7 @@ def model_layer(ctx, build, n_models=None):
             "equations": {}, "states": {}, "nla_models": 0, "unsafe_models_by_design": 0, "planted": {}, "ops": {},
             "models_with_unsafe_equation": {"C": 0, "Py": 0}, "unsafe_equations": {"C": 0, "Py": 0}, "equations_total": 0,
             "variable_types": {}, "analyser_warnings_models": 0, "compared_values": 0, "failing_models": {"C": 0, "Py": 0},
+            "scaled_reference_positions": {k: 0 for k in G.POSITION_KINDS}, "scaled_position_requests_not_met": {},
             "nla_systems_probed": 0, "nla_not_covered": 0, "computed_constants_late": 0, "primary_prediction_mismatches": 0, "rejected_samples": []}
     distinct = set()
     sample = None
@@ -652,6 +784,11 @@ def model_layer(ctx, build, n_models=None):
                 hist["planted"][p] = hist["planted"].get(p, 0) + 1
             for op, cnt in meta["ops"].items():
                 hist["ops"][op] = hist["ops"].get(op, 0) + cnt
+            for kind, cnt in G.scaled_positions(r["desc"], r["res"], r["prim"]).items():
+                hist["scaled_reference_positions"][kind] = hist["scaled_reference_positions"].get(kind, 0) + cnt
+            for kind in meta.get("positions_requested", []):
+                if kind not in meta.get("positions_boosted", {}):
+                    hist["scaled_position_requests_not_met"][kind] = hist["scaled_position_requests_not_met"].get(kind, 0) + 1
             if meta["nested_equations"] >= 1:
                 distinct.add(hashlib.sha256(m["xml"].encode()).hexdigest())
             if sample is None and meta["equations"] <= 4 and meta["components"] <= 2 and not meta["unsafe"]:
@@ -660,9 +797,9 @@ def model_layer(ctx, build, n_models=None):
             hist["primary_prediction_mismatches"] += sum(1 for k, v in r["prim"].items() if tuple(pred[k]) != tuple(v))
         hist["equations_total"] += len(r["recs"])
         for lang in ("C", "Py"):
-            bad = [q for q in r["recs"] if not q["safe"][lang] or q["state_on_rhs"] or q["lhs_unscaled"] or q["bare_rate"]]
+            bad = [q for q in r["recs"] if not q["safe"][lang] or q["state_on_rhs"] or q["lhs_unscaled"] or q["bare_rate"] or q["rate_order"]]
             hist["unsafe_equations"][lang] += len(bad)
-            hist["models_with_unsafe_equation"][lang] += bool(bad) or bool(r["upper"])
+            hist["models_with_unsafe_equation"][lang] += bool(bad) or bool(r["upper"]) or bool(r["class_ids"])
             hist["failing_models"][lang] += bool(J.failures[lang])
         hist["compared_values"] += J.compared
         if r["nla_cover"] is True:
@@ -689,6 +826,9 @@ def model_layer(ctx, build, n_models=None):
                     os.remove(base + ext)
                 except OSError:
                     pass
+    zero = [k for k in G.POSITION_KINDS if not hist["scaled_reference_positions"].get(k)]
+    if zero:
+        ctx.notes.append("no reference to a scaled variable was generated at position kind(s): %s" % ", ".join(zero))
     hist["findings_observed"] = counters["findings"]
     hist["violations"] = counters["violations"]
     hist["rejected_fraction"] = round(hist["rejected"] / max(1, len(models)), 4)
@@ -706,8 +846,13 @@ def model_layer(ctx, build, n_models=None):
     ctx.cov["traces_validated_against_impl"] = ctx.cov.get("traces_validated_against_impl", 0) + hist["compared_values"]
     ctx.assumptions += [
         "whole-model layer: the reference evaluator (gen/matheval.py) is the oracle for MathML semantics and unit scaling "
-        "(value of a variable = class quantity / multiplier of its units; multiplier * (10^prefix * ref)^exponent); generated unit "
-        "children with an exponent other than 1 carry no prefix (Units::scalingFactor mishandles that: C08's finding)",
+        "(value of a variable = class quantity / multiplier of its units; multiplier * (10^prefix * ref)^exponent); unit children "
+        "with both a prefix and an exponent other than 1 only occur in models that plant C03-prefix-with-exponent-scaling",
+        "whole-model layer: references to variables in compatible-but-scaled units are generated at every syntactic position "
+        "(coverage.input_distribution.models.scaled_reference_positions counts them per position kind, measured on the final model "
+        "text with the primaries the analyser really chose); inside exponents, degrees and logarithm bases they use the dimensionless "
+        "family (percent, permille, dozen) in equations over that family only, because Analyser::analyseEquationUnits dereferences a "
+        "null AST child when an exponent's value is unknown and a later operand is not dimensionless",
         "whole-model layer: cc -O0 and CPython with the platform libm; comparison at relative 1e-9 (1e-6 for entries that depend on an NLA "
         "solve), on models conditioned so that 1e-12 input noise moves no output by more than 1e-10",
         "whole-model layer: the NLA solver supplied to the generated code is a damped Newton iteration written for this check (same "
@@ -765,9 +910,11 @@ def replay_model(ctx, build, path):
             flag = "" if all(isinstance(exp, float) and g is not None and close(g, exp, NLA_REL, 1e-9) for g in got.values()) else "   <-- differs"
             print("%-9s[%d] %-18s %-28s expected %-24r C %-24r Py %r%s" % (arr, rec["index"], rec["type"], "%s.%s (%s)" % (rec["var"] + (rec["units"],)), exp, got["C"], got["Py"], flag))
     for q in x["recs"]:
-        if not (q["safe"]["C"] and q["safe"]["Py"]) or q["state_on_rhs"] or q["lhs_unscaled"] or q["bare_rate"]:
-            print("unsafe equation in %s: safe=%s ids=%s state_on_rhs=%s lhs_unscaled=%s bare_rate=%s\n   C : %s\n   Py: %s" % (
-                q["comp"], q["safe"], q["ids"], q["state_on_rhs"], q["lhs_unscaled"], q["bare_rate"], q["gen"]["C"], q["gen"]["Py"]))
+        if not (q["safe"]["C"] and q["safe"]["Py"]) or q["state_on_rhs"] or q["lhs_unscaled"] or q["bare_rate"] or q["rate_order"]:
+            print("unsafe equation in %s: safe=%s ids=%s state_on_rhs=%s lhs_unscaled=%s bare_rate=%s rate_order=%s\n   C : %s\n   Py: %s" % (
+                q["comp"], q["safe"], q["ids"], q["state_on_rhs"], q["lhs_unscaled"], q["bare_rate"], q["rate_order"], q["gen"]["C"], q["gen"]["Py"]))
+    if x["class_ids"]:
+        print("variable-level shapes:", {"%s.%s" % tuple(x["res"].classes[k][0]): sorted(v) for k, v in x["class_ids"].items()})
     for lang in ("C", "Py"):
         for what, classes, detail in x["judged"].failures[lang]:
             print("FAIL %s: %s %s" % (lang, what, {k: detail[k] for k in ("expected", "got") if k in detail}))
